@@ -73,6 +73,47 @@ def gen_history(rng):
     return ctor, steps
 
 
+def rel_sweep_lines():
+    """violating-argument calls (operands whose ring degree / column count differs from what the entry point assumes):
+    conditions that the library checked only under debug assertions.  Every line must panic or leave memory intact."""
+    lines = []
+    ops = ["add", "sub", "rotate", "automorphism", "normalize", "bignormalize", "dft", "dftadd", "svp", "vmp"]
+    for be in ("fft64ref", "fft64avx", "ntt120ref", "ntt120avx"):
+        for op in ops:
+            for (nm, nr, na) in ((8, 16, 16), (16, 8, 8), (16, 16, 8), (8, 8, 16), (16, 8, 16), (8, 16, 8)):
+                for (cols, size) in ((1, 1), (1, 2), (2, 3)):
+                    for extra in ((0, 1, 2) if op in ("normalize", "bignormalize", "vmp") else (0,)):
+                        lines.append(f"{len(lines)} mism be={be} op={op} nm={nm} nr={nr} na={na} cols={cols} size={size} extra={extra}")
+            if op == "vmp":
+                for (cols, size) in ((1, 2), (2, 3), (1, 3)):
+                    for extra in (1, 2):
+                        lines.append(f"{len(lines)} mism be={be} op={op} nm=8 nr=8 na=8 cols={cols} size={size} extra={extra}")
+    # the safe primitive-trait methods over the NTT120Avx bbc product kernels: result / operands shorter than `ell` rows need
+    for (op, wx, wy, wr) in (("bbc", 8, 8, 4), ("bbc1x2", 16, 16, 8), ("bbc2x2", 16, 32, 16)):
+        for ell in (0, 1, 3):
+            for r in sorted({wr, wr // 2, 0}):
+                for (dx, dy) in ((0, 0), (1, 0), (0, 1)):
+                    if ell == 0 and (dx or dy):
+                        continue
+                    lines.append(f"{len(lines)} prim op={op} ell={ell} res={r} x={wx * (ell - dx)} y={wy * (ell - dy)}")
+    return lines
+
+
+def run_resilient(ctx, binp, lines):
+    """run the `rel` replays; a call that kills the process (SIGSEGV after a wild access) is answered `crashed:<rc>` and the
+    remaining lines continue in a fresh process"""
+    out, todo = [], list(lines)
+    while todo:
+        rc_, o, _ = ctx.run_lines(binp, ["rel"], todo)
+        o = [x for x in o if len(x.split()) >= 2]
+        out += o
+        if len(o) >= len(todo):
+            break
+        out.append(f"{todo[len(o)].split()[0]} crashed:{rc_}")
+        todo = todo[len(o) + 1:]
+    return out
+
+
 def run(ctx):
     rng = ctx.rng
     quick = ctx.tier == "quick"
@@ -259,6 +300,19 @@ def run(ctx):
         if cnv_col:
             ctx.violation("FFT64 convolution entry points do not check the column indices: out-of-bounds write (cnv_by_const_apply, AVX) / read (cnv_apply_dft)",
                           {"key": KEY_CNV_COL, "witness": cnv_col}, True, key=KEY_CNV_COL)
+        # ---- violating arguments (ring degree / column mismatches), quick tier: the `release` profile (debug assertions ON):
+        #      every call must panic or leave the canary frames of result and scratch intact
+        rl = rel_sweep_lines()
+        rout = run_resilient(ctx, binp, rl)
+        for l, a in zip(rl, rout):
+            t = l.split()
+            ctx.count_case(("mism-release", t[2], t[3], a.split()[1].split(":")[0]))
+            if "broken" in a or "crashed" in a:
+                ctx.oracle_failures += 1
+                if len(oracle_fail) < 20:
+                    oracle_fail.append({"case": l, "impl": a, "profile": "release", "why": "safe call with an operand of another ring degree / column count / length wrote outside its result or scratch window (or crashed the process)",
+                                        "rerun": f"printf '{l}\\n' | harness/target/release/pvh rel"})
+        ctx.cov["mismatch_cases_release"] = len(rl)
         # ---- canaries
         for be in ("fft64ref", "ntt120ref", "fft64avx", "ntt120avx"):
             for n in (2, 4, 8, 16):
@@ -372,6 +426,59 @@ def run(ctx):
             found, w = halrun.classify(ctx, binp, line, a, b)
             w["difference"] = d
             (oracle_fail if found else disagree).append({"hal": w})
+
+    # ---- thorough: the profile downstream users get (`rel`: release, debug assertions OFF).  The conditions the library
+    #      checks only under #[cfg(debug_assertions)] (tools/list_debug_asserts.py) are replayed with violating arguments:
+    #      (a) canary frames of result and scratch, (b) AddressSanitizer on every call that returns
+    if not quick and binp is not None:
+        relp = ctx.build_harness("rel")
+        if relp is None:
+            broken.append("harness build failed (rel): " + getattr(ctx, "build_error", "")[-300:])
+        else:
+            rl = rel_sweep_lines()
+            rout = run_resilient(ctx, relp, rl)
+            nb = 0
+            for l, a in zip(rl, rout):
+                ctx.count_case(("mism-rel", l.split()[2], l.split()[3], a.split()[1].split(":")[0]))
+                if "broken" in a or "crashed" in a:
+                    nb += 1
+                    ctx.oracle_failures += 1
+                    if len(oracle_fail) < 20:
+                        oracle_fail.append({"case": l, "impl": a, "profile": "rel (debug assertions off)",
+                                            "why": "memory outside the result / scratch window modified by a safe call (or process crashed)",
+                                            "rerun": f"printf '{l}\\n' | harness/target/rel/pvh rel"})
+            ctx.cov["mismatch_cases_rel"] = {"cases": len(rl), "answers": len(rout), "broken": nb,
+                                             "returned_ok": sum(1 for a in rout if a.split()[1] == "ok")}
+            env = dict(common.ENV, RUSTFLAGS="-Zsanitizer=address -C target-feature=+avx2,+fma")
+            try:
+                pb = subprocess.run(["cargo", "build", "--profile", "rel", "--offline", "--target", "x86_64-unknown-linux-gnu", "--target-dir", "target-asan"],
+                                    cwd=common.HARNESS, env=env, capture_output=True, text=True, timeout=1500)
+                okb = pb.returncode == 0
+            except subprocess.TimeoutExpired:
+                okb = False
+            if okb:
+                ab = os.path.join(common.HARNESS, "target-asan", "x86_64-unknown-linux-gnu", "rel", "pvh")
+                env2 = dict(common.ENV, ASAN_OPTIONS="detect_leaks=0:abort_on_error=0:alloc_dealloc_mismatch=0")
+                import concurrent.futures
+
+                def one(l):
+                    pr = subprocess.run([ab, "rel"], input=l + "\n", capture_output=True, text=True, env=env2)
+                    m = re.search(r"ERROR: AddressSanitizer: (\S+)", pr.stderr)
+                    rw = re.search(r"(READ|WRITE) of size (\d+)", pr.stderr)
+                    return l, (m.group(1) + ":" + (rw.group(1) if rw else "?")) if m else None
+                todo = [l for l, a in zip(rl, rout) if a.split()[1] == "ok"]
+                with concurrent.futures.ThreadPoolExecutor(6) as ex:
+                    reps = [(l, k) for l, k in ex.map(one, todo) if k]
+                ctx.cov["mismatch_asan_rel"] = {"cases": len(todo), "reports": len(reps)}
+                for l, k in reps[:20]:
+                    ctx.oracle_failures += 1
+                    if len(oracle_fail) < 20:
+                        oracle_fail.append({"case": l, "profile": "rel + AddressSanitizer", "why": k,
+                                            "rerun": "RUSTFLAGS='-Zsanitizer=address -C target-feature=+avx2,+fma' cargo build --profile rel --target x86_64-unknown-linux-gnu --target-dir target-asan; printf '<case>\\n' | target-asan/x86_64-unknown-linux-gnu/rel/pvh rel"})
+                if reps:
+                    ctx.oracle_failures += len(reps) - min(len(reps), 20)
+            else:
+                ctx.cov["mismatch_asan_rel"] = {"build": "failed"}
 
     # ---- documented UB: Vec<u8> freed with align 1 over a 64-aligned allocation
     try:
